@@ -231,7 +231,9 @@ def check_stepsize(p, out, D=None):
     worst = 0.0
     for i, t in enumerate(T):
         lamb_in = 1.0 / t["dt"]
-        if lamb_in >= lamb_max:
+        # the statement speaks about values *returned by a previous trial*; the configured
+        # initial value is not judged (a run with lamb_init >= lamb_max is a misconfiguration)
+        if i >= 1 and lamb_in >= lamb_max:
             viol.append({"what": "trial %d computed with inverse step size %r >= lamb_max %r" % (i, lamb_in, lamb_max),
                          "key": dict(key, kind="beyond-lamb-max")})
             break
